@@ -17,11 +17,9 @@ package syntax
 // Category membership, abstracting the Unicode tables: CatHit(name, ch) is "ch belongs to the named category"
 // (unicode.IsSpace for the space pseudo-category, IsWordChar for the word pseudo-category, unicode.Is otherwise).
 //@ ghost func CatHit(cat string, ch rune) bool
-// first decisive category decides: a hit on a positive category or a miss on a negated one is "in";
-// a hit on a negated category is "out"
-//@ spec func CatDecides(ct Category, ch rune) bool = CatHit(ct.Cat, ch) || ct.Negate
-//@ spec func InCats(cats []Category, ch rune) bool = exists i int :: 0 <= i && i < len(cats) && CatDecides(cats[i], ch) && (CatHit(cats[i].Cat, ch) != cats[i].Negate) &&
-//@     forall j int :: 0 <= j && j < i ==> !CatDecides(cats[j], ch)
+// the categories of a class are a union (set algebra): in a positive category, or outside a negated one
+//@ spec func CatIn(ct Category, ch rune) bool = CatHit(ct.Cat, ch) != ct.Negate
+//@ spec func InCats(cats []Category, ch rune) bool = exists i int :: 0 <= i && i < len(cats) && CatIn(cats[i], ch)
 
 // Membership of a subtracted set, by reference (defined by the axiom below; keeps Member non-recursive)
 //@ ghost func MemberP(p *CharSet, ch rune) bool
@@ -35,7 +33,7 @@ package syntax
 //@   ensures res == InCats(c.categories, ch)
 //@   loop 0:
 //@     invariant -1 <= rangeindex && rangeindex < len(c.categories)
-//@     invariant forall j int :: 0 <= j && j <= rangeindex ==> !CatDecides(c.categories[j], ch)
+//@     invariant forall j int :: 0 <= j && j <= rangeindex ==> !CatIn(c.categories[j], ch)
 //@     decreases len(c.categories) - rangeindex
 
 // A category name is known when it is one of the two pseudo categories or a key of the Unicode table map.
